@@ -48,6 +48,11 @@ def conversion_sites(f):
 
 
 def run(fb, rep, tier):
+    _run(fb, rep, tier)
+    index_domains(fb, rep)
+
+
+def _run(fb, rep, tier):
     rep.extra['explanation'] = EXPLANATION
     rep.extra['assumptions'] = ['Boost.Multiprecision operators are the only way a double can enter a Rational (mpq_set_d is searched for by name as well)']
     # ------------------------------------------------------------------ R11.1
@@ -196,3 +201,123 @@ def run(fb, rep, tier):
     loads = [n for n in f.nodes if n.k == 'CXXMemberCallExpr' and n.short == 'load' and M.obj_text(n) == '_rationalLUSolver']
     ok, p, _ = must(f, None, lambda n: n.k == 'CXXMemberCallExpr' and n.short == 'load' and M.obj_text(n) == '_rationalLUSolver')
     rep.check(ok and len(loads) == 1 and render(loads[0].args()[1]) == 'matrixdim', 'R11.3', '_computeBasisInverseRational|load', w, 'loads the assembled matrix with its dimension', 'the assembled matrix is not loaded on every path / wrong dimension', path=p)
+
+
+# ------------------------------------------------------------------------------------------------ R11.5
+# The rational LU code addresses its data by four kinds of integers: row indices, column indices, positions in the pivot order, and
+# offsets into the index/value files.  Each array has one index domain and (for the integer arrays) one value domain:
+LU_REQ = {}
+for _a in 'diag row.perm u.row.start u.row.len u.row.max u.row.elem temp.s_max l.rbeg l.rperm'.split():
+    LU_REQ[_a] = 'ROW'
+for _a in 'col.perm u.col.start u.col.len u.col.max u.col.elem temp.s_cact'.split():
+    LU_REQ[_a] = 'COL'
+for _a in 'row.orig col.orig l.rorig'.split():
+    LU_REQ[_a] = 'POS'
+for _a in 'u.row.idx u.row.val'.split():
+    LU_REQ[_a] = 'offset into the row file of U'
+for _a in 'u.col.idx u.col.val'.split():
+    LU_REQ[_a] = 'offset into the column file of U'
+for _a in 'l.idx l.val'.split():
+    LU_REQ[_a] = 'offset into the column file of L'
+for _a in 'l.ridx l.rval'.split():
+    LU_REQ[_a] = 'offset into the row file of L'
+LU_VAL = {'row.orig': 'ROW', 'col.orig': 'COL', 'row.perm': 'POS', 'col.perm': 'POS', 'u.row.idx': 'COL', 'u.col.idx': 'ROW', 'l.idx': 'ROW', 'l.row': 'ROW',
+          'u.row.start': 'offset into the row file of U', 'u.col.start': 'offset into the column file of U', 'l.start': 'offset into the column file of L',
+          'l.rbeg': 'offset into the row file of L', 'l.ridx': 'ROW', 'l.rorig': 'ROW', 'l.rperm': 'POS'}
+LU_WORD = {'ROW': 'a row index', 'COL': 'a column index', 'POS': 'a position in the pivot order'}
+
+
+def _defs(f, u, use):
+    out = []
+    for x in f.nodes:
+        if x.k == 'VarDecl' and x.u == u and x.c:
+            out.append((x.l, x.i, x.kids[0]))
+        if x.k == 'BinaryOperator' and x.o == '=' and strip(x.kids[0]).k == 'DeclRefExpr' and strip(x.kids[0]).u == u:
+            out.append((x.l, x.i, x.kids[1]))
+    out = [d for d in out if d[0] <= use.l]
+    return max(out, key=lambda t: (t[0], t[1])) if out else None
+
+
+def lu_canon(f, b, use, depth=0):
+    """the member array an array expression denotes (local pointer aliases such as `int* rorig = row.orig` resolved to their nearest preceding
+    definition); None for parameters and anything else"""
+    b = strip(b)
+    if depth > 4:
+        return None
+    if b.k == 'MemberExpr':
+        return render(b).replace('this->', '')
+    if b.k == 'DeclRefExpr' and b.dk == 'local':
+        d = _defs(f, b.u, use)
+        if d is None:
+            return None
+        rhs = strip(d[2])
+        if rhs.k == 'CXXMemberCallExpr' and rhs.short == 'get_ptr' and rhs.obj() is not None:
+            return lu_canon(f, rhs.obj(), use, depth + 1)
+        return lu_canon(f, rhs, use, depth + 1)
+    return None
+
+
+def lu_sub(n):
+    n = strip(n)
+    if n.k == 'ArraySubscriptExpr':
+        return lu_canon(n.fn, n.kids[0], n), n.kids[1]
+    if n.k == 'CXXOperatorCallExpr' and n.short == 'operator[]' and len(n.kids) >= 3:
+        return lu_canon(n.fn, n.kids[1], n), n.kids[2]
+    return None, None
+
+
+def lu_dom(f, e, use, depth=0):
+    """domain of an integer expression, from the value domain of the array it was read from (locals: nearest preceding definition)"""
+    e = strip(e)
+    if depth > 6:
+        return None
+    b, ix = lu_sub(e)
+    if ix is not None:
+        return LU_VAL.get(b)
+    if e.k == 'DeclRefExpr' and e.dk == 'local':
+        d = _defs(f, e.u, use)
+        if d is None or d[1] == use.i:
+            return None
+        return lu_dom(f, d[2], use, depth + 1)
+    if e.k == 'BinaryOperator' and e.o in ('+', '-'):
+        a, b2 = lu_dom(f, e.kids[0], use, depth + 1), lu_dom(f, e.kids[1], use, depth + 1)
+        if a and a.startswith('offset'):
+            return a
+        if b2 and b2.startswith('offset') and e.o == '+':
+            return b2
+        return None
+    if e.k == 'UnaryOperator' and e.c and e.o in ('++', '--', 'post++', 'post--', 'pre++', 'pre--'):
+        return lu_dom(f, e.kids[0], use, depth + 1)
+    return None
+
+
+def index_domains(fb, rep):
+    rep.rule('R11.5', 'rational LU: every subscript of a permutation, diagonal, start/length or index/value array is an integer of that array\'s index domain '
+             '(row index, column index, pivot position, file offset), as far as the integer\'s origin is known', floor=400)
+    tot = known = ctl = 0
+    for f in sorted(fb.funcs.values(), key=lambda g: (g.file, g.line, g.name)):
+        isctl = f.name.startswith('verif_ctl::LuCtl')
+        if not (isctl or f.file.endswith('clufactor_rational.hpp')) or not f.nodes:
+            continue
+        seen = {}
+        for n in f.nodes:
+            b, ix = lu_sub(n)
+            if b is None or b not in LU_REQ:
+                continue
+            tot += 1
+            d = lu_dom(f, ix, n)
+            if d is None:
+                continue
+            if isctl:
+                ctl += 1 if d != LU_REQ[b] else 0
+                continue
+            known += 1
+            base = '%s|%s[%s]' % (f.short, b, render(strip(ix))[:20])
+            seen[base] = seen.get(base, 0) + 1
+            rep.check(d == LU_REQ[b], 'R11.5', '%s#%d' % (base, seen[base]), '%s:%d' % (f.file, n.l), 'index is %s' % LU_WORD.get(d, d),
+                      '%s is subscripted by %s, which is %s (read from an array of such), but %s is addressed by %s: a different entry is read or written whenever row and column '
+                      'permutation differ' % (b, render(strip(ix))[:30], LU_WORD.get(d, 'an ' + d), b, LU_WORD.get(LU_REQ[b], 'an ' + LU_REQ[b])))
+    if ctl < 1:
+        raise AnalysisBroken('R11.5 positive control (LuCtl) did not fire')
+    rep.ok('R11.5', 'control|LuCtl::diag_by_column', 'units/controls.cpp', 'positive control fires', nontrivial=False)
+    rep.not_decided.append('R11.5: %d of %d subscripts of the typed arrays have an index whose origin is not an array of known value domain (loop counters, parameters): no verdict' % (tot - known, tot))
